@@ -170,6 +170,28 @@ func arithTypedList() ([]arithTypedInfo, error) {
 			default:
 				elem = fv
 			}
+			// the shape of the accessor pair itself: XScaled() returns float64 / []float64 / [N]float64 and
+			// SetXScaled takes the same type; it must be the shape of the struct field
+			gm, _ := t.MethodByName(fname + "Scaled")
+			if gm.Type.NumIn() != 1 || gm.Type.NumOut() != 1 || t.Method(i).Type.NumIn() != 2 || t.Method(i).Type.In(1) != gm.Type.Out(0) {
+				return nil, fmt.Errorf("%s.%s: unexpected accessor signatures %s / %s", reg.name, fname, gm.Type, t.Method(i).Type)
+			}
+			shape := -1
+			switch rt := gm.Type.Out(0); rt.Kind() {
+			case reflect.Float64:
+				shape = 0
+			case reflect.Slice:
+				if rt.Elem().Kind() == reflect.Float64 {
+					shape = 1
+				}
+			case reflect.Array:
+				if rt.Elem().Kind() == reflect.Float64 {
+					shape = rt.Len() + 1
+				}
+			}
+			if shape != info.arr {
+				return nil, fmt.Errorf("%s.%s: accessor returns %s for a struct field of type %s", reg.name, fname, gm.Type.Out(0), fv.Type())
+			}
 			ty, inv, ok := arithKindTy(elem.Kind())
 			if !ok {
 				return nil, fmt.Errorf("%s.%s: unsupported kind %s", reg.name, fname, elem.Kind())
@@ -353,6 +375,20 @@ func regenProfileArith() (string, error) {
 		fmt.Fprintf(&b, "  ⟨%q, %q, %d, %d, %d, %d, %s, %s, %d⟩%s\n", t.mesg, t.field, t.mesgNum, t.fieldNum, t.ty, t.invalid, paBits(t.scale), paBits(t.offset), t.arr, sep)
 	}
 	b.WriteString("]\n")
+	// every field the standard factory knows, as far as the validator's native-field look-up reads it
+	b.WriteString("/-- every field of `factory.StandardFactory()` with a known name: (mesgNum, fieldNum, baseType, scale, offset) -/\n")
+	b.WriteString("def fields : List (Nat × Nat × Nat × Nat × Nat) := [\n")
+	firstF := true
+	for _, n := range nums {
+		for _, fl := range mesgs[typedef.MesgNum(n)] {
+			if !firstF {
+				b.WriteString(",\n")
+			}
+			firstF = false
+			fmt.Fprintf(&b, "  (%d, %d, %d, %s, %s)", n, fl.Num, byte(fl.BaseType), paBits(fl.Scale), paBits(fl.Offset))
+		}
+	}
+	b.WriteString("\n]\n")
 	b.WriteString("end Fit.Gen.PA\n")
 	return b.String(), nil
 }
